@@ -5,6 +5,18 @@ import inspect
 from collections import OrderedDict, deque
 
 
+class _Poisoned(OrderedDict):
+    """a cache table that is not the wrapper's own: any use of it is an error"""
+
+    def _no(self, *a, **k):
+        raise AssertionError("the wrapped function's attribute was used as the wrapper's own state")
+
+    get = __getitem__ = __setitem__ = __delitem__ = __contains__ = move_to_end = popitem = pop = _no
+
+    def __bool__(self):
+        return True
+
+
 def add_decoys(fn, is_async=True):
     def decoy(*args, **kwargs):
         return "decoy called instead of the wrapped function"
@@ -14,10 +26,10 @@ def add_decoys(fn, is_async=True):
 
     fn._function = adecoy if is_async else decoy
     fn._entries = deque([1e15] * 64)                 # a throttle window that is full for ever
-    fn._cached = OrderedDict()
+    fn._cached = _Poisoned()                         # a table that must never be looked at
     fn._limit = 0
     fn._period = 1e9
-    fn._timeout = 0.0
+    fn._timeout = 1e9                                # a deadline that never comes
     fn._lock = None
     fn._loop = None
     fn._executor = None
